@@ -503,7 +503,7 @@ def k8(ctx):
                 ctx.check(own_len, "key-renaming-injective:" + C.fkey(b), "%s numbers each slot by the current size of the renaming it is building" % C.short(b.id),
                           "%s numbers a slot with %s instead of the size of the renaming it is building: two different slots can get the same number, so different equations share one registry key and the registry hands out the stored proof of the one for the other (which equations collide depends on how the slot names sort)" % (C.short(b.id), role_str(sv)[:60]),
                           where_of(sub, c.bb))
-    ctx.floor("slot numberings in the explanation code", n, 2)
+    ctx.floor("slot numberings in the explanation code", n, 1)
     from . import c03
     c03.h10(ctx)
 
